@@ -5,7 +5,7 @@ rows = []
 for d in sorted(glob.glob("/verif/seeded/C*")):
     m = json.load(open(os.path.join(d, "meta.json")))
     res = json.load(open(os.path.join(d, "result.json"))) if os.path.exists(os.path.join(d, "result.json")) else {}
-    conf = open(os.path.join(d, "confirm.log")).read() if os.path.exists(os.path.join(d, "confirm.log")) else ""
+    conf = open(os.path.join(d, "confirm.log"), errors="replace").read() if os.path.exists(os.path.join(d, "confirm.log")) else ""
     confirmed = "yes" if "CONFIRMED" in conf else ("NO" if conf else "pending")
     own = m.get("decided_by", m["property"])
     caught = []
